@@ -637,7 +637,7 @@ func TestVerif_C12(t *testing.T) {
 	methods := []byte{EncryptionMethodPlain, EncryptionMethodAES256GCM, EncryptionMethodChaha20Poly1305, EncryptionMethodAES128GCM}
 	classes := []string{"boundary", "tlshdr", "framehdr", "payload", "tag"}
 	kinds := []string{"reset", "eof", "close-cli", "close-srv", "send-reset", "send-eof"}
-	nscn := r.Pick(8, 60)
+	nscn := r.Pick(8, 240)
 	for i := 0; i < nscn; i++ {
 		rng := r.Rand("c12scn", i)
 		base := c12Scenario(rng, i)
@@ -693,7 +693,7 @@ func TestVerif_C12(t *testing.T) {
 		}
 	}
 	// stream-count invariant
-	for i := 0; i < r.Pick(12, 120); i++ {
+	for i := 0; i < r.Pick(12, 400); i++ {
 		id := fmt.Sprintf("count-%d", i)
 		if !r.Mine(id) {
 			continue
